@@ -32,6 +32,10 @@ T = {
          "Trusted: TLC, scripted doubles.", "TLA+ spec (Adapters) + TLC simulate-generated behaviours replayed into the real code"),
  'C17': (MC, 'shardq-sched', "The implementation-shaped ShardQueue.tla (one action per atomic operation) is model-checked exhaustively; TLC counterexamples of the modelled deviations and of the as-is model plus TLC-simulated and random/PCT schedules are replayed on the real ShardQueue under a controlled scheduler (every atomic op a schedule point); each execution is validated against ShardQueueObs.tla and, step by step with the projected shared words, against ShardQueue.tla itself.",
          "Trusted: TLC, the mux controlled scheduler, the connection double. Exhaustive for 2 shards x 2 adders x <=2 adds + Close.", "impl-shaped TLA+ spec model-checked by TLC; TLC-generated schedules replayed on the code; trace validation against observable and impl-shaped specs"),
+ 'C13': (MC, 'server-sched', "The server under the controlled scheduler: a real TCP listener on one manual poller, accepted connections on another, clients connecting/sending/closing, handlers of any duration, a server-side sender outside any handler, Shutdown with a deadline - all as scheduler choices (random, PCT and single-stall exploration); traces validated by TLC against ServerObs.tla (nothing closed stays tracked, Shutdown nil only with nothing tracked and then the listener closed, deadline error only with something to wait for, busy connections left running).",
+         "Trusted: TLC, controlled scheduler, loopback TCP as observed. The EMFILE back-off path is not exercised.", "TLA+ observable spec (ServerObs) + TLC trace validation under a controlled scheduler"),
+ 'C14': (MC, 'dial-sched', "Dials: controlled (one DialTCP against a listening / closed / never-accepting port, manual poller, the context's expiry as a scheduler choice, single-stall exploration) and free-running (concurrent DialConnection over tcp/tcp6/unix with timeouts around the connect latency, echo on success, self-connect retry in a private network namespace); traces validated by TLC against DialObs.tla (exactly one of connection/error, Timeout() on expiry, no descriptor or poller slot left behind, usable both ways).",
+         "Trusted: TLC, controlled scheduler, loopback connect behaviour; /proc/self/fd and slot audit events for the census.", "TLA+ observable spec (DialObs) + TLC trace validation of controlled and free-running dials"),
  'C18': (MC, 'pm-sched', "The implementation-shaped PollManager.tla (status word, two-step Run, round-robin counter, phases) is model-checked exhaustively; TLC-simulated schedules, the counterexample of the modelled deviation, random/PCT schedules (controlled scheduler on a private manager with real pollers) and free-running racing first Picks (spin barrier, real threads) are executed; each execution is validated against PollManagerObs.tla (picked poller running, exactly the configured number of loops after each phase, round-robin evenness, no panic) and, step by step, against PollManager.tla.",
          "Trusted: TLC, controlled scheduler, loop start/exit trace points. Exhaustive for 3 pickers x 2 picks x sizes 2,1,3.", "impl-shaped TLA+ spec model-checked by TLC; TLC-generated schedules replayed on the code; trace validation against observable and impl-shaped specs"),
 }
@@ -56,6 +60,8 @@ engines = [
  {'name': 'after-close', 'path': 'lib/after.py', 'serves_properties': ['C12'], 'kind_free_text': 'TLC-enumerated after-close table on real connections'},
  {'name': 'fd-table', 'path': 'lib/fdt.py', 'serves_properties': ['C15'], 'kind_free_text': 'descriptor audit traces vs spec/FdTable.tla'},
  {'name': 'adapters-replay', 'path': 'lib/adapt.py', 'serves_properties': ['C16'], 'kind_free_text': 'TLC -simulate behaviours of spec/Adapters.tla replayed with scripted io doubles'},
+ {'name': 'server-sched', 'path': 'lib/server.py', 'serves_properties': ['C13'], 'kind_free_text': 'server scenarios under the controlled scheduler judged by spec/ServerObs.tla'},
+ {'name': 'dial-sched', 'path': 'lib/dial.py', 'serves_properties': ['C14'], 'kind_free_text': 'dial scenarios (controlled + free-running) judged by spec/DialObs.tla'},
  {'name': 'pm-sched', 'path': 'lib/pm.py', 'serves_properties': ['C18'], 'kind_free_text': 'spec/PollManager.tla model-checked; schedules replayed on a private manager under the controlled scheduler; free-running racing Picks'},
  {'name': 'shardq-sched', 'path': 'lib/shardq.py', 'serves_properties': ['C17'], 'kind_free_text': 'spec/ShardQueue.tla model-checked; schedules replayed under the mux controlled scheduler'},
 ]
